@@ -18,6 +18,15 @@ def run(rep, tier, seed, rng):
     threads = [1, 2, 5, 16] if tier == "quick" else [1, 2, 3, 5, 8, 16]
     launches = 3 if tier == "quick" else 6
     cases = [genproj.gen_project(rng, focus=("maps" if i % 2 == 0 else "build")) for i in range(nproj)]
+    # wide projects: many (builder, app) pairs with statement sets of very different sizes, so that any way of
+    # splitting the pair list among worker threads (chunking, work stealing) would show in the order of the file
+    from .. import directed
+    for nb, na in ((4, 16), (3, 24), (8, 9)) if tier == "quick" else ((4, 16), (3, 24), (8, 9), (6, 30), (2, 70)):
+        mods = [{"name": "lib%d" % k, "sources": ["lib%d_%d.c" % (k, j) for j in range(1 + (k * 7) % 5)]} for k in range(6)]
+        apps = [{"name": "app%02d" % a, "sources": ["a%02d_%d.c" % (a, j) for j in range(1 + (a * 5) % 17)],
+                 "selects": ["lib%d" % ((a + j) % 6) for j in range(a % 4)]} for a in range(na)]
+        cases.append((directed.base(mods, apps, builders=[{"name": "b%d" % i, "env": {"X": "x%d" % i}} for i in range(nb)]), {}))
+    nproj = len(cases)
     base = e2e.run_batch(laze, driver, cases)
     jobs = [(i, t, k) for i in range(nproj) for t in threads for k in range(launches if t == threads[-1] else 1)]
     def one(job):
